@@ -23,6 +23,7 @@ import (
 	"github.com/koordinator-sh/koordinator/apis/extension"
 	slov1alpha1 "github.com/koordinator-sh/koordinator/apis/slo/v1alpha1"
 	"github.com/koordinator-sh/koordinator/pkg/slo-controller/noderesource/framework"
+	"github.com/koordinator-sh/koordinator/pkg/util/sloconfig"
 	"github.com/koordinator-sh/koordinator/pkg/verifkit/vk"
 )
 
@@ -46,6 +47,10 @@ type c09mCase struct {
 	Thr        [2]int64 // mid cpu/memory threshold percent, -1 = nil (default 100)
 	Unalloc    int64    // mid unallocated percent, -1 = nil (default 0)
 	StaticPct  [2]int64 // -1 = nil (default 0)
+	// ViaConfig: strategy resolved with sloconfig.GetNodeColocationStrategy(cluster config, node), as the controller does,
+	// so that node.koordinator.sh/mid-static-{cpu,memory}-reserved-ratio apply.
+	ViaConfig   bool
+	StaticLabel [2]c09mLabel
 	DegradeMin int64
 	Sys        [2]int64
 	NodeUse    [2]int64 // -1 = key missing in the node usage
@@ -56,6 +61,42 @@ type c09mCase struct {
 		Prio string
 		Use  [2]int64
 	}
+}
+
+// c09mLabel: per-node ratio label. Documented rule: a parsable float >= 0 takes precedence over the configured percentage
+// (percent = ratio*100); an illegal value (unparsable, negative) is ignored.
+type c09mLabel struct {
+	Set      bool
+	Str      string
+	Valid    bool
+	Num, Den int64
+}
+
+var c09mLabelPool = []c09mLabel{
+	{true, "1", true, 1, 1}, {true, "0.5", true, 1, 2}, {true, "0.05", true, 5, 100}, {true, "0.999", true, 999, 1000},
+	{true, "1.5", true, 3, 2}, {true, "-0.1", false, 0, 1}, {true, "-1", false, 0, 1}, {true, "abc", false, 0, 1}, {true, "", false, 0, 1}, {true, "30%", false, 0, 1},
+}
+
+func c09mGenLabel(t *rapid.T, label string) c09mLabel {
+	switch rapid.IntRange(0, 9).Draw(t, label+"Kind") {
+	case 0, 1:
+		return c09mLabel{}
+	case 2, 3, 4:
+		return rapid.SampledFrom([]c09mLabel{{true, "0", true, 0, 1}, {true, "0.0", true, 0, 1}}).Draw(t, label)
+	case 5, 6:
+		n := rapid.Int64Range(1, 99).Draw(t, label)
+		return c09mLabel{true, fmt.Sprintf("0.%02d", n), true, n, 100}
+	default:
+		return rapid.SampledFrom(c09mLabelPool).Draw(t, label)
+	}
+}
+
+// staticShare is the effective static reserved share of resource r (fraction of capacity)
+func (cs *c09mCase) staticShare(r int) *big.Rat {
+	if l := cs.StaticLabel[r]; cs.ViaConfig && l.Set && l.Valid {
+		return big.NewRat(l.Num, l.Den)
+	}
+	return c09mPctOr(cs.StaticPct[r], 0)
 }
 
 func (cs *c09mCase) String() string { b, _ := json.Marshal(cs); return string(b) }
@@ -155,6 +196,11 @@ func c09mGen(t *rapid.T) *c09mCase {
 		cs.ModeSet = true
 	}
 	cs.DegradeMin = rapid.Int64Range(1, 120).Draw(t, "degradeMin")
+	cs.ViaConfig = rapid.Bool().Draw(t, "viaConfig")
+	if cs.ViaConfig {
+		cs.StaticLabel[0] = c09mGenLabel(t, "labelStaticCPU")
+		cs.StaticLabel[1] = c09mGenLabel(t, "labelStaticMem")
+	}
 	np := rapid.IntRange(0, 6).Draw(t, "pods")
 	for i := 0; i < np; i++ {
 		p := c09mPod{Name: fmt.Sprintf("p%d", i)}
@@ -235,6 +281,18 @@ func (cs *c09mCase) build(ut *metav1.Time) (*configuration.ColocationStrategy, *
 		b, _ := json.Marshal(&extension.NodeReservation{Resources: c09mRL(cs.AnnoRes)})
 		node.Annotations[extension.AnnotationNodeReservation] = string(b)
 	}
+	if cs.ViaConfig {
+		keys := [2]string{extension.LabelMidStaticCPUReservedRatio, extension.LabelMidStaticMemoryReservedRatio}
+		for r := 0; r < 2; r++ {
+			if cs.StaticLabel[r].Set {
+				if node.Labels == nil {
+					node.Labels = map[string]string{}
+				}
+				node.Labels[keys[r]] = cs.StaticLabel[r].Str
+			}
+		}
+		st = sloconfig.GetNodeColocationStrategy(&configuration.ColocationCfg{ColocationStrategy: *st}, node)
+	}
 	pl := &corev1.PodList{}
 	for _, p := range cs.Pods {
 		pod := corev1.Pod{}
@@ -304,7 +362,7 @@ func (cs *c09mCase) bounds(r int) (thr, recl *big.Rat) {
 	c := new(big.Rat).SetInt64(cs.Cap[r])
 	thr = new(big.Rat).Mul(c, c09mPctOr(cs.Thr[r], 100))
 	if cs.Static {
-		return thr, new(big.Rat).Mul(c, c09mPctOr(cs.StaticPct[r], 0))
+		return thr, new(big.Rat).Mul(c, cs.staticShare(r))
 	}
 	var a int64 // min(prod reclaimable, node unused), at least 0
 	if cs.HasReclaim && cs.Reclaim[r] > 0 {
@@ -426,6 +484,15 @@ func TestVerifC09MidBound(t *testing.T) {
 		c.ClassIf(cs.Static, "mode:static")
 		c.ClassIf(!cs.Static, "mode:dynamic")
 		c.ClassIf(!cs.HasReclaim, "no-prod-reclaimable")
+		c.ClassIf(cs.ViaConfig, "strategy-resolved-via-config")
+		for r := 0; r < 2; r++ {
+			if l := cs.StaticLabel[r]; cs.ViaConfig && l.Set {
+				c.ClassIf(l.Valid && l.Num == 0, "label-ratio-zero")
+				c.ClassIf(l.Valid && l.Num == 0 && cs.Static && cs.StaticPct[r] > 0, "label-ratio-zero-overrides-positive-static-share")
+				c.ClassIf(l.Valid && l.Num > 0, "label-ratio-positive")
+				c.ClassIf(!l.Valid, "label-ratio-illegal(ignored)")
+			}
+		}
 		c.ClassIf(cs.NodeUse[0] < 0 || cs.NodeUse[1] < 0, "invalid-node-usage")
 		interior := false
 		for r := 0; r < 2; r++ {
